@@ -3,6 +3,7 @@ package c16
 import (
 	"fmt"
 	"net/http"
+	"net/url"
 	"path/filepath"
 	"sort"
 	"strings"
@@ -28,6 +29,27 @@ type Op struct {
 	Points []int  `json:"points"`         // indexes into the id pool
 	Tag    string `json:"tag"`            // value written into the documents
 	With   *Op    `json:"with,omitempty"` // an operation of another user issued concurrently
+	// Traverse > 0: the collection segment of the URL is a path that tries to leave the user's own
+	// namespace towards the same-named collection of the next user (percent-encoded "../<user>/<col>" in
+	// one of several spellings); such a request must be refused and change nothing
+	Traverse int `json:"traverse,omitempty"`
+}
+
+func (w *world) colSegment(op Op) string {
+	if op.Traverse == 0 {
+		return op.Col
+	}
+	other := url.PathEscape(w.c.Users[(op.User+1)%len(w.c.Users)])
+	switch op.Traverse {
+	case 1:
+		return "..%2F" + other + "%2F" + op.Col
+	case 2:
+		return "%2E%2E%2F" + other + "%2F" + op.Col
+	case 3:
+		return op.Col + "%2F..%2F..%2F" + other + "%2F" + op.Col
+	default:
+		return ".%2F..%2F" + other + "%2F" + op.Col
+	}
 }
 
 type Case struct {
@@ -90,6 +112,13 @@ func genOp(t *rapid.T, label string, nusers int, fixedUser int, ncols int) Op {
 		}
 		op.Tag = rapid.SampledFrom([]string{"red", "green", "blue"}).Draw(t, label+"-tag")
 	}
+	if rapid.IntRange(0, 7).Draw(t, label+"-trav") == 0 {
+		op.Kind = rapid.SampledFrom([]string{"get", "search", "deleteCol", "insert", "update", "deletePoints"}).Draw(t, label+"-travkind")
+		op.Traverse = rapid.IntRange(1, 4).Draw(t, label+"-travhow")
+		if len(op.Points) == 0 {
+			op.Points, op.Tag = []int{0, 1}, "red"
+		}
+	}
 	return op
 }
 
@@ -149,7 +178,12 @@ func (w *world) apply(op Op) int {
 	case "createV1":
 		return drive.Call(w.h, "POST", "/v1/collections", hd, map[string]any{"id": op.Col, "vectorSize": 2, "distanceMetric": "euclidean"}).Status
 	case "deleteCol":
-		return drive.Call(w.h, "DELETE", "/v2/collections/"+op.Col, hd, nil).Status
+		return drive.Call(w.h, "DELETE", "/v2/collections/"+w.colSegment(op), hd, nil).Status
+	case "get":
+		return drive.Call(w.h, "GET", "/v2/collections/"+w.colSegment(op), hd, nil).Status
+	case "search":
+		return drive.Call(w.h, "POST", "/v2/collections/"+w.colSegment(op)+"/points/search", hd, map[string]any{
+			"query": map[string]any{"property": "tag", "string": map[string]any{"value": "red", "operator": "notEquals"}}, "select": []string{"*"}, "limit": 50}).Status
 	case "insert", "update":
 		var pts []map[string]any
 		for _, p := range op.Points {
@@ -159,13 +193,13 @@ func (w *world) apply(op Op) int {
 		if op.Kind == "update" {
 			method = "PUT"
 		}
-		return drive.Call(w.h, method, "/v2/collections/"+op.Col+"/points", hd, map[string]any{"points": pts}).Status
+		return drive.Call(w.h, method, "/v2/collections/"+w.colSegment(op)+"/points", hd, map[string]any{"points": pts}).Status
 	case "deletePoints":
 		var ids []string
 		for _, p := range op.Points {
 			ids = append(ids, poolId(op.User, p))
 		}
-		return drive.Call(w.h, "DELETE", "/v2/collections/"+op.Col+"/points", hd, map[string]any{"ids": ids}).Status
+		return drive.Call(w.h, "DELETE", "/v2/collections/"+w.colSegment(op)+"/points", hd, map[string]any{"ids": ids}).Status
 	}
 	return 0
 }
@@ -174,7 +208,16 @@ func (w *world) apply(op Op) int {
 func (w *world) expect(op Op) (wantStatus []int) {
 	um := w.users[op.User]
 	col := um.cols[op.Col]
+	if op.Traverse > 0 {
+		// refused (or redirected to a cleaned path by the router), never served
+		return []int{301, 307, 308, 400, 404, 405}
+	}
 	switch op.Kind {
+	case "get", "search":
+		if col == nil {
+			return []int{404}
+		}
+		return []int{200}
 	case "createV2", "createV1":
 		if col != nil {
 			return []int{409}
